@@ -188,6 +188,10 @@ class StandardRequestHandler(ControlRequestHandler):
                     dispatch_new_request()
 
                 with m.State('CLEAR_FEATURE'):
+                    # CLEAR_FEATURE has no data stage; if the host starts one anyway, stall it.
+                    with m.If(interface.data_requested):
+                        m.d.comb += handshake_generator.stall.eq(1)
+
                     # Provide an response to the STATUS stage.
                     with m.If(interface.status_requested):
 
